@@ -869,8 +869,24 @@ class ResultHandler(PoolThread):
         restart_state = self.restart_state
         on_job_ready = self.on_job_ready
 
+        # (job, i) -> pid of the worker that announced it: the result is
+        # credited to that worker whether or not the job is still known here
+        # (a map that failed already, a job resolved by a time limit, ...)
+        owners = self._owners = {}
+
         def on_ack(job, i, time_accepted, pid, synqW_fd):
             restart_state.R = 0
+            counters = self.on_ready_counters
+            if counters:
+                owners[(job, i)] = pid
+                if len(owners) > 2 * len(counters) + 32:
+                    # left behind by workers that went away and by jobs
+                    # that were refused: a worker has one unanswered job
+                    # at a time, the one it announced last.
+                    latest = dict((p, key) for key, p in owners.items())
+                    for key, p in list(owners.items()):
+                        if p not in counters or latest[p] != key:
+                            del owners[key]
             try:
                 cache[job]._ack(i, time_accepted, pid, synqW_fd)
             except (KeyError, AttributeError):
@@ -880,18 +896,18 @@ class ResultHandler(PoolThread):
         def on_ready(job, i, obj, inqW_fd):
             if on_job_ready is not None:
                 on_job_ready(job, i, obj, inqW_fd)
-            try:
-                item = cache[job]
-            except KeyError:
-                return
-
             if self.on_ready_counters:
                 # credit the worker that produced this result
-                worker_pid = item._worker_pid_for(i)
+                worker_pid = owners.pop((job, i), None)
                 if worker_pid and worker_pid in self.on_ready_counters:
                     on_ready_counter = self.on_ready_counters[worker_pid]
                     with on_ready_counter.get_lock():
                         on_ready_counter.value += 1
+
+            try:
+                item = cache[job]
+            except KeyError:
+                return
 
             if not item.ready():
                 if putlock is not None:
